@@ -99,6 +99,16 @@ func (dp *DataPublisher) SetLJH3(ChannelIndex int, Timebase float64,
 	dp.numberWritten = 0
 }
 
+// SetLJH3Position records the channel's row and column in the readout array, which the LJH3 header
+// reports in its TDM section. SetLJH3 has no parameters for them (the header said row 0, column 0 for
+// every channel); call this right after SetLJH3.
+func (dp *DataPublisher) SetLJH3Position(rowNum, colNum int) {
+	if dp.LJH3 != nil {
+		dp.LJH3.Row = rowNum
+		dp.LJH3.Column = colNum
+	}
+}
+
 // HasLJH3 returns true if LJH3 is non-nil, eg if writing to LJH3 is occuring
 func (dp *DataPublisher) HasLJH3() bool {
 	return dp.LJH3 != nil
